@@ -435,6 +435,7 @@ func corr(seed uint64, n int) {
 	forRounds(n, func(round, m int) {
 		cs := append(walkerCases(seed, round, m, n), seiCorrCases(seed+7, round, m, n)...)
 		cs = append(cs, stage2CorrCases(seed+11, round, m, n)...)
+		cs = append(cs, confRecCorrCases(seed+13, round, m/10, n/10)...)
 		r.batch(cs, func(i int, res result) {
 			c := cs[i]
 			if res.class == "skipped" {
